@@ -22,7 +22,7 @@ CHECKS = {
 }
 
 NOT_YET = {}
-PENDING = set(["C20"])   # statements written, proofs in progress
+PENDING = set()   # statements written, proofs in progress
 
 def main():
     props = [json.loads(l) for l in open(os.path.join(V, "properties.jsonl"))]
